@@ -176,7 +176,7 @@ AfterWrite(L, B) ==
   ELSE IF L - avail > BufSize THEN 0 ELSE L - avail
 
 TraceSent ==
-  /\ Step("Sent") /\ Ev.a \in Actor
+  /\ Step("Sent") /\ Ev.a \in Actor /\ (Tmo(Ev) => Ev.err)
   /\ LET a == Ev.a
          L == cur[a].body.plen + HdrLen IN
      IF pc[a] = "senderr"
@@ -213,7 +213,7 @@ TraceClose ==
   /\ Quiet
 
 TraceFlushed ==
-  /\ Step("Flushed") /\ Ev.a \in Actor /\ ~todoErr
+  /\ Step("Flushed") /\ Ev.a \in Actor /\ ~todoErr /\ (Tmo(Ev) => Ev.err)
   /\ LET a == Ev.a IN
      IF pc[a] = "written"
        THEN LET d == IF wbuf = <<>> THEN 0 ELSE Delivered(conn, wbuf)
